@@ -321,6 +321,9 @@ PROPS = {
         },
         "obs": [("dir", [])],
         "kinds": ["DIR"],
+        # which files are analysed is C16's business; how their results are merged is C03's / C15's
+        "viol_only_prefix": ("eligibility", "panic"),
+        "disagree_only_prefix": ("eligibility", "panic"),
         "assumptions": [
             "Rust's to_lowercase produces one of '.', 't', 's', 'o', 'l' only from ASCII input: checked exhaustively over all Unicode scalar values on every run (generator statistic non_ascii_chars_lowercasing_into_dot_t_sol must be 0)",
             "valid-Unicode file names (the code panics on non-UTF-8 names: outside the property's quantifier)",
@@ -331,7 +334,6 @@ PROPS = {
         "theorems": {
             "Solstat.Props.C16": ["entry_local"],
             "Solstat.Props.C15": ["no_global_state", "entry_frame_as_modelled"],
-            "Solstat.Props.C17": ["fileNo_irrelevant"],
             "Solstat.Props.C03": ["analyzeDir_exact"],
         },
         "obs": [("dir", []), ("threads", [])],
@@ -344,6 +346,7 @@ PROPS = {
     "C11": {
         "theorems": {
             "Solstat.Props.C11": ["rb_section_lines", "rb_entries", "rb_block", "rb_blocksOf", "readBack_blocks", "triples_canon_perm",
+                                  "rb_severityPart", "triples_by_severity", "C11_vulnerability",
                                   "readBack_optimizationReport", "sigOK_of_b", "sigOK_opt", "sigOK_vuln", "sigOK_qa",
                                   "overviews_have_no_marker", "C11_optimization", "C11_qa", "section_iff"],
             "Solstat.Props.C13": ["all_variants_known"],
